@@ -354,9 +354,34 @@ func (r *Resolver) onEnum(g *Scope, name string, t *parser.Type, v *parser.Const
 	return "", fmt.Errorf("expect const value for %q is a int or enum, got %+v", name, v)
 }
 
+// derefContainer follows typedefs to the container type they name: a reference to a typedef carries the
+// category of its target only, not the key and value types. The scope returned is the one the element types
+// are written in.
+func (r *Resolver) derefContainer(g *Scope, t *parser.Type) (*Scope, *parser.Type, error) {
+	if t.ValueType != nil {
+		return g, t, nil
+	}
+	ast, x, err := semantic.Deref(g.ast, t)
+	if err != nil {
+		return nil, nil, err
+	}
+	if x.ValueType == nil {
+		return nil, nil, fmt.Errorf("expect %q a container type in %q", t.Name, g.ast.Filename)
+	}
+	if ast != g.ast {
+		if g = r.util.scopeCache[ast]; g == nil {
+			return nil, nil, fmt.Errorf("%q not build", ast.Filename)
+		}
+	}
+	return g, x, nil
+}
+
 func (r *Resolver) onSetOrList(g *Scope, name string, t *parser.Type, v *parser.ConstValue) (string, error) {
 	goType, err := r.getTypeName(g, t)
 	if err != nil {
+		return "", err
+	}
+	if g, t, err = r.derefContainer(g, t); err != nil {
 		return "", err
 	}
 	var ss []string
@@ -389,6 +414,9 @@ func (r *Resolver) onSetOrList(g *Scope, name string, t *parser.Type, v *parser.
 func (r *Resolver) onMap(g *Scope, name string, t *parser.Type, v *parser.ConstValue) (string, error) {
 	goType, err := r.getTypeName(g, t)
 	if err != nil {
+		return "", err
+	}
+	if g, t, err = r.derefContainer(g, t); err != nil {
 		return "", err
 	}
 	var kvs []string
